@@ -203,6 +203,59 @@ def cond_holds(env, cond):
     return None          # unknown condition
 
 
+# ---- plan rules with a meaning in Model/PlanSem.v ---------------------------------------------------------------
+PLAN_OPS = {"filter", "empty", "limit", "order", "topn", "window", "join", "and", "list"}
+JOIN_KW = {"inner", "left_outer", "right_outer", "full_outer", "semi", "anti"}
+PLAN_CONDS = {"not_depend_on": "PNotDependOn"}
+# counterexamples (bindings of the pattern variables) for the plan rules that are NOT sound; a rule listed here gets a
+# `prefuted` obligation, every other modelled rule a `psound` one (proved by the generic tactic for ALL bindings)
+_ONE_ROW_L = 'MRel [0%nat] [[(0%nat, DI32 1)]]'
+PLAN_REFUTATIONS = {
+    "pushdown-filter-limit": [("?cond", "MExpr [0%nat] (is2 0)"), ("?limit", "MExpr [] (fun _ => DI32 1)"), ("?offset", "MExpr [] (fun _ => DI32 0)"),
+                              ("?child", "MRel [0%nat] [[(0%nat, DI32 1)]; [(0%nat, DI32 2)]]")],
+    "pushdown-filter-topn": [("?cond", "MExpr [0%nat] (is2 0)"), ("?limit", "MExpr [] (fun _ => DI32 1)"), ("?offset", "MExpr [] (fun _ => DI32 0)"),
+                             ("?keys", "MKeys []"), ("?child", "MRel [0%nat] [[(0%nat, DI32 1)]; [(0%nat, DI32 2)]]")],
+    "pushdown-join-condition-left": [("?type", 'MLit "left_outer"'), ("?cond1", "MExpr [0%nat] (is2 0)"), ("?cond2", "MExpr [] (fun _ => DBool true)"),
+                                     ("?left", _ONE_ROW_L), ("?right", "MRel [1%nat] []")],
+    "pushdown-join-condition-left-1": [("?type", 'MLit "left_outer"'), ("?cond1", "MExpr [0%nat] (is2 0)"),
+                                       ("?left", _ONE_ROW_L), ("?right", "MRel [1%nat] []")],
+    "pushdown-join-condition-right": [("?type", 'MLit "right_outer"'), ("?cond1", "MExpr [1%nat] (is2 1)"), ("?cond2", "MExpr [] (fun _ => DBool true)"),
+                                      ("?left", "MRel [0%nat] []"), ("?right", "MRel [1%nat] [[(1%nat, DI32 1)]]")],
+    "pushdown-join-condition-right-1": [("?type", 'MLit "right_outer"'), ("?cond1", "MExpr [1%nat] (is2 1)"),
+                                        ("?left", "MRel [0%nat] []"), ("?right", "MRel [1%nat] [[(1%nat, DI32 1)]]")],
+}
+# the join types for which a refuted `?type` rule is nevertheless proved sound (instances of the rule)
+PLAN_INSTANCES = {
+    "pushdown-join-condition-left": ["inner", "semi"],
+    "pushdown-join-condition-left-1": ["inner"],
+    "pushdown-join-condition-right": ["inner", "semi", "anti", "left_outer"],
+}
+
+
+def is_plan_rule_modelled(lhs, rhs, conds):
+    if rhs is None:
+        return False
+    try:
+        l, r = parse_sx(lhs), parse_sx(rhs)
+    except Exception:
+        return False
+    if isinstance(l, str):
+        return False
+    ops = {o for o, _ in ops_of(l, set()) | ops_of(r, set())}
+    if not ops <= PLAN_OPS or not (ops - {"and", "list"}):
+        return False
+    for a in atoms_of(l, set()) | atoms_of(r, set()):
+        if not (a.startswith("?") or a in ("true", "false", "null") or a in JOIN_KW or re.fullmatch(r"\d+", a)):
+            return False
+    return all(c in PLAN_CONDS for c, _ in conds)
+
+
+def subst_atom(x, var, val):
+    if isinstance(x, str):
+        return val if x == var else x
+    return (x[0], [subst_atom(a, var, val) for a in x[1]])
+
+
 DOMAIN = [None, True, False, -1, 0, 1, 2]
 
 
@@ -263,7 +316,14 @@ def translate(inventory, outdir):
                "From RL Require Export Model.Rule.", "Open Scope string_scope.", ""]
     obl_v = ["(** GENERATED by tools/translate_rules.py on every run — do not edit.", "    One obligation per expression rewrite rule of the optimiser. *)",
              "From RL Require Import Gen.Rules Proofs.RuleTac.", ""]
-    info = {"expr_sound": [], "expr_refuted": {}, "plan_rules": [], "skipped": [], "unknown_conditions": []}
+    info = {"expr_sound": [], "expr_refuted": {}, "plan_rules": [], "skipped": [], "unknown_conditions": [],
+            "plan_sound": [], "plan_refuted": {}, "plan_instances_sound": []}
+    prules_v = ["(** GENERATED by tools/translate_rules.py from /repo/src/planner/rules/plan.rs on every run — do not edit.",
+                "    The plan rewrite rules that have a meaning in Model/PlanSem.v, as data. *)",
+                "From RL Require Export Model.PlanSem.", "Open Scope string_scope.", ""]
+    pobl_v = ["(** GENERATED by tools/translate_rules.py on every run — do not edit.", "    One obligation per modelled plan rewrite rule. *)",
+              "From RL Require Import Gen.PlanRules Proofs.PlanRuleTac.", "Open Scope string_scope.", ""]
+    psound_ids, prefuted_ids = [], []
     all_names = []
     for f, name, lhs, rhs, conds in src_rules:
         key = (name, norm(lhs), norm(rhs))
@@ -271,6 +331,27 @@ def translate(inventory, outdir):
             continue
         seen.add(key)
         all_names.append(name)
+        if is_plan_rule_modelled(lhs, rhs, conds):
+            pl, pr = parse_sx(lhs), parse_sx(rhs)
+            pcs = "; ".join(f"{PLAN_CONDS[c]} {cstr(args[0])} {cstr(args[1])}" for c, args in conds)
+            idn = ident("pr_" + name, used)
+            prules_v.append(f"Definition {idn} : prule := mk_prule {cstr(name)} {sx_coq(pl)} {sx_coq(pr)} [{pcs}].")
+            if name in PLAN_REFUTATIONS:
+                wit = "; ".join(f"({cstr(k)}, {v})" for k, v in PLAN_REFUTATIONS[name])
+                pobl_v.append(f"Lemma {idn}_refuted : prefuted {idn}.\nProof. prule_refuted [{wit}]. Qed.")
+                prefuted_ids.append(idn)
+                info["plan_refuted"][name] = dict(PLAN_REFUTATIONS[name])
+                for ty in PLAN_INSTANCES.get(name, []):
+                    idi = ident(f"pr_{name}__{ty}", used)
+                    prules_v.append(f"Definition {idi} : prule := mk_prule {cstr(name + ' @ ' + ty)} {sx_coq(subst_atom(pl, '?type', ty))} "
+                                    f"{sx_coq(subst_atom(pr, '?type', ty))} [{pcs}].")
+                    pobl_v.append(f"Lemma {idi}_sound : psound {idi}.\nProof. prule_sound. Qed.")
+                    psound_ids.append(idi)
+                    info["plan_instances_sound"].append(f"{name} @ {ty}")
+            else:
+                pobl_v.append(f"Lemma {idn}_sound : psound {idn}.\nProof. prule_sound. Qed.")
+                psound_ids.append(idn)
+                info["plan_sound"].append(name)
         if not is_expr_rule(lhs, rhs):
             (info["plan_rules"] if rhs is None or any(o not in EXPR_OPS for o, _ in ops_of(parse_sx(lhs), set())) else info["skipped"]).append(name)
             continue
@@ -311,11 +392,26 @@ def translate(inventory, outdir):
     for i in reversed(ref_ids):
         term = f"(Forall_cons _ {i}_refuted {term})"
     obl_v.append(f"Proof. exact {term}. Qed.")
+    pobl_v.append("")
+    pobl_v.append(f"Definition psound_rules : list prule := [{'; '.join(psound_ids)}].")
+    pobl_v.append("Lemma psound_rules_ok : Forall psound psound_rules.")
+    term = "(Forall_nil _)"
+    for i in reversed(psound_ids):
+        term = f"(Forall_cons _ {i}_sound {term})"
+    pobl_v.append(f"Proof. exact {term}. Qed.")
+    pobl_v.append(f"Definition prefuted_rules : list prule := [{'; '.join(prefuted_ids)}].")
+    pobl_v.append("Lemma prefuted_rules_ok : Forall prefuted prefuted_rules.")
+    term = "(Forall_nil _)"
+    for i in reversed(prefuted_ids):
+        term = f"(Forall_cons _ {i}_refuted {term})"
+    pobl_v.append(f"Proof. exact {term}. Qed.")
     rules_v.append("")
     rules_v.append(f"Definition all_rule_names : list string := [{'; '.join(cstr(n) for n in all_names)}].")
     os.makedirs(outdir, exist_ok=True)
     open(os.path.join(outdir, "Rules.v"), "w").write("\n".join(rules_v) + "\n")
     open(os.path.join(outdir, "ExprObligations.v"), "w").write("\n".join(obl_v) + "\n")
+    open(os.path.join(outdir, "PlanRules.v"), "w").write("\n".join(prules_v) + "\n")
+    open(os.path.join(outdir, "PlanObligations.v"), "w").write("\n".join(pobl_v) + "\n")
     info["problems"] = problems
     info["n_rules"] = len(all_names)
     return info
